@@ -181,9 +181,14 @@ class C05(univ.UnivCheck):
         return name, (self.times[i // 2], "m", {"k": "v"}, {"f": 1}), compact, 0, False
 
     # ---- worker ---------------------------------------------------------------------------
-    def roundtrip(self, specs, compact, dialect):
-        """Insert the points into a fresh CSV database, reopen, read back. Returns list of ref points or exception."""
-        from tinyflux import Point, TinyFlux
+    def roundtrip(self, specs, compact, dialect, rewrites=0):
+        """Insert the points into a fresh CSV database, reopen, read back. Returns list of ref points or exception.
+
+        With ``rewrites`` > 0 the rows are additionally carried through that many storage rewrites on the
+        same database object (sentinel points are inserted and removed one by one), i.e. they are read and
+        written again by the rewrite path before the file is reopened.
+        """
+        from tinyflux import Point, TagQuery, TinyFlux
 
         path = os.path.join(common.db_dir(), "c05.csv")
         if os.path.exists(path):
@@ -195,6 +200,14 @@ class C05(univ.UnivCheck):
                 p = Point()
                 p.time, p.measurement, p.tags, p.fields = t, m, dict(tags), dict(fields)
                 db.insert(p, compact_key_prefixes=compact)
+            for i in range(rewrites):
+                sp = Point()
+                sp.time, sp.measurement, sp.tags = T0, "sentinel-row", {"sentinel-id": str(i)}
+                db.insert(sp)
+            for i in range(rewrites):
+                n = db.remove(TagQuery()["sentinel-id"] == str(i))
+                if n != 1:
+                    raise AssertionError(f"sentinel removal {i} removed {n} points")
         finally:
             db.close()
         db2 = TinyFlux(path, auto_index=False, **kw)
@@ -208,17 +221,21 @@ class C05(univ.UnivCheck):
         batches = collections.defaultdict(list)
         for gi in range(lo, hi):
             name, spec, compact, d, trivial = self.element(gi)
-            batches[(compact, d)].append((gi, name, spec))
+            batches[(compact, d, 0)].append((gi, name, spec))
+            if name in ("single-slot", "shapes"):
+                # the same point once more, carried through two storage rewrites before the file is reopened
+                batches[(compact, d, 2)].append((gi, name, spec))
+                c["evaluations"] += 1
             c["evaluations"] += 1
             if not trivial:
                 c["__distinct_nontrivial"] += 1
-        for (compact, d), items in batches.items():
+        for (compact, d, rewrites), items in batches.items():
             for k in range(0, len(items), 250):
                 chunk = items[k : k + 250]
                 specs = [s for _, _, s in chunk]
                 ok = False
                 try:
-                    got = self.roundtrip(specs, compact, d)
+                    got = self.roundtrip(specs, compact, d, rewrites)
                     ok = len(got) == len(specs) and all(same_point(g, s) for g, s in zip(got, specs))
                 except Exception:
                     ok = False
@@ -226,29 +243,35 @@ class C05(univ.UnivCheck):
                 if ok:
                     continue
                 for gi, name, spec in chunk:  # localise one by one
-                    v = self.check_one(name, spec, compact, d)
+                    v = self.check_one(name, spec, compact, d, rewrites)
                     c["single_roundtrips"] += 1
                     out += v
             if len(smp) < 2 and items:
-                smp.append({"group": items[0][1], "point": repr(items[len(items) // 2][2]), "compact": compact, "dialect": DIALECTS[d][0]})
+                smp.append({"group": items[0][1], "point": repr(items[len(items) // 2][2]), "compact": compact,
+                            "dialect": DIALECTS[d][0], "storage_rewrites_before_reopen": rewrites})
         return out, c, smp
 
-    def check_one(self, name, spec, compact, d):
+    def check_one(self, name, spec, compact, d, rewrites=0):
+        via = "|after-rewrites" if rewrites else ""
         try:
-            got = self.roundtrip([spec], compact, d)
+            got = self.roundtrip([spec], compact, d, rewrites)
         except Exception as e:  # noqa
-            return [viol("roundtrip", f"C05|raises:{type(e).__name__}|{classify(spec, None)}", observed=f"{type(e).__name__}: {e}"[:200],
-                         expected=spec, kind="input") | {"input": (spec, compact, d)}]
+            return [viol("roundtrip", f"C05|raises:{type(e).__name__}|{classify(spec, None)}{via}", observed=f"{type(e).__name__}: {e}"[:200],
+                         expected=spec, kind="input") | {"input": (spec, compact, d, rewrites)}]
         if len(got) == 1 and same_point(got[0], spec):
             return []
-        return [viol("roundtrip", f"C05|{classify(spec, got[0] if len(got) == 1 else None)}", observed=got, expected=spec,
-                     kind="input") | {"input": (spec, compact, d)}]
+        cls = classify(spec, got[0] if len(got) == 1 else None)
+        if cls == "slot=tagvalue|value=is-_none":
+            via = ""  # the known sentinel collision is the same finding on either path
+        return [viol("roundtrip", f"C05|{cls}{via}", observed=got, expected=spec,
+                     kind="input") | {"input": (spec, compact, d, rewrites)}]
 
     def recheck(self, rec):
         common.import_tinyflux()
-        spec, compact, d = rec["input"]
+        spec, compact, d = rec["input"][:3]
+        rewrites = rec["input"][3] if len(rec["input"]) > 3 else 0
         spec = (spec[0], spec[1], dict(spec[2]), dict(spec[3]))
-        return self.check_one("replay", spec, compact, d)
+        return self.check_one("replay", spec, compact, d, rewrites)
 
 
 def same_point(got, spec):
